@@ -162,7 +162,7 @@ def worker(args) -> Dict[str, Any]:
             findings.append({"id": r["id"], "kind": "mon", "record": r, "text": [f"C19/unparsable-record| {b}" for b in r["badLines"]]})
         if "error" in o:
             findings.append({"id": r["id"], "kind": "driver-error", "text": [o["error"][:300]], "record": r})
-        elif o.get("mon"):
+        if "error" not in o and o.get("mon"):
             findings.append({"id": r["id"], "kind": "mon", "text": o["mon"][:8], "record": r})
     s = recs[0]
     return {"n": len(recs), "steps": sum(r["meta"].get("n", 0) for r in recs), "rows": n_events, "findings": fw.pick(findings, 20), "n_findings": len(findings),
